@@ -555,7 +555,11 @@ func runQuote(c *Ctx) {
 // ---------------------------------------------------------------- domain cliargs
 
 type cliCase struct {
-	Kind string   `json:"kind"` // fwd | var | init
+	Kind string   `json:"kind"` // fwd | var | typed | init
+	// fwd / var: the path on which the forwarded value reaches the recording command (the demand is the same on every path):
+	// "" (the task itself) | inc (a task of an included Taskfile) | via (a `task:` call handing it on in `vars:`) | alias
+	// (a GLOBAL variable defined as '{{.CLI_ARGS}}' / '{{.X}}')
+	Path string `json:"path,omitempty"`
 	Argv []string `json:"argv"` // hex; fwd/var: positional arguments of `task` (before and after --); init: positional arguments ({ROOT} = tree root)
 	Dash int      `json:"dash"` // index in Argv where "--" is inserted, -1 = none
 	Text []string `json:"text,omitempty"`
@@ -587,6 +591,11 @@ var (
 
 const cliTaskfileVarY = "why"
 
+// non-string variable values of the workers' Taskfile: name, YAML text, what the template engine prints for it
+// (`{{shellQuote .N}}`: "any variable value" — fix PENDING-V8-4; before: `wrong type for value; expected string`)
+var cliTyped = [][3]string{{"N1", "42", "42"}, {"N2", "-7", "-7"}, {"N3", "0", "0"}, {"B1", "true", "true"}, {"B2", "false", "false"},
+	{"F1", "1.5", "1.5"}, {"L1", "[a, b c]", "[a b c]"}, {"S1", "'007'", "007"}, {"M1", "{map: {k: v}}", "map[k:v]"}}
+
 func cliSetup() {
 	cliBin = os.Getenv("VERIF_TASK_BIN")
 	cliRoot = os.Getenv("VERIF_SCRATCH")
@@ -606,10 +615,35 @@ func cliSetup() {
 		os.MkdirAll(filepath.Join(w.dir, "home"), 0o755)
 		rec, _ := syntax.Quote(self, syntax.LangBash)
 		out, _ := syntax.Quote(w.outFile, syntax.LangBash)
-		tf := "version: '3'\nsilent: true\nvars:\n  Y: " + cliTaskfileVarY + "\ntasks:\n" +
-			"  fwd:\n    cmds:\n      - " + strconv.Quote(rec+" __record "+out+" {{.CLI_ARGS}}") + "\n" +
-			"  var:\n    cmds:\n      - " + strconv.Quote(rec+" __record "+out+" {{shellQuote .X}} {{q .X}}") + "\n" +
-			"  default:\n    cmds:\n      - " + strconv.Quote(rec+" __record "+out+" {{shellQuote .X}} {{q .X}}") + "\n"
+		recFwd := func(v string) string { return strconv.Quote(rec + " __record " + out + " {{." + v + "}}") }
+		recVar := func(v string) string { return strconv.Quote(rec + " __record " + out + " {{shellQuote ." + v + "}} {{q ." + v + "}}") }
+		tf := "version: '3'\nsilent: true\nvars:\n  Y: " + cliTaskfileVarY + "\n  GARGS: '{{.CLI_ARGS}}'\n  GX: '{{.X}}'\n"
+		for _, tv := range cliTyped {
+			tf += "  " + tv[0] + ": " + tv[1] + "\n"
+		}
+		tf += "includes:\n  inc:\n    taskfile: ./inc/Taskfile.yml\n    dir: .\n" +
+			"tasks:\n" +
+			"  fwd:\n    cmds:\n      - " + recFwd("CLI_ARGS") + "\n" +
+			"  var:\n    cmds:\n      - " + recVar("X") + "\n" +
+			"  default:\n    cmds:\n      - " + recVar("X") + "\n" +
+			// through a `task:` call that hands the value on in `vars:`
+			"  viafwd:\n    cmds:\n      - task: getsA\n        vars: {A: '{{.CLI_ARGS}}'}\n" +
+			"  getsA:\n    cmds:\n      - " + recFwd("A") + "\n" +
+			"  viavar:\n    cmds:\n      - task: getsV\n        vars: {V: '{{.X}}'}\n" +
+			"  getsV:\n    cmds:\n      - " + recVar("V") + "\n" +
+			// through a global variable defined from it
+			"  aliasfwd:\n    cmds:\n      - " + recFwd("GARGS") + "\n" +
+			"  aliasvar:\n    cmds:\n      - " + recVar("GX") + "\n"
+		for _, tv := range cliTyped {
+			tf += "  ty-" + tv[0] + ":\n    cmds:\n      - " + recVar(tv[0]) + "\n"
+		}
+		inc := "version: '3'\nsilent: true\ntasks:\n" +
+			"  fwd:\n    cmds:\n      - " + recFwd("CLI_ARGS") + "\n" +
+			"  var:\n    cmds:\n      - " + recVar("X") + "\n"
+		os.MkdirAll(filepath.Join(w.dir, "inc"), 0o755)
+		if err := os.WriteFile(filepath.Join(w.dir, "inc", "Taskfile.yml"), []byte(inc), 0o644); err != nil {
+			panic(err)
+		}
 		if err := os.WriteFile(filepath.Join(w.dir, "Taskfile.yml"), []byte(tf), 0o644); err != nil {
 			panic(err)
 		}
@@ -674,11 +708,42 @@ func evalCli(d *cliCase) (cl string, il string) {
 		hs[i] = hx(s)
 	}
 	cl = caseLine("quote.e2e", append([]string{d.Kind, strconv.Itoa(d.Dash)}, hs...)...)
+	run := ss
+	if d.Kind == "typed" {
+		// `task ty-<NAME>`: the demand is that of `var` with X = what the engine prints for the value
+		printed := ""
+		for _, tv := range cliTyped {
+			if len(ss) == 1 && tv[0] == ss[0] {
+				printed = tv[2]
+			}
+		}
+		cl = caseLine("quote.e2e", "var", "-1", hx("X="+printed))
+		run = []string{"ty-" + ss[0]}
+	} else if d.Path != "" {
+		// the same arguments, the task name replaced by the one of the path
+		name := map[string]string{"inc": "inc:" + d.Kind, "via": "via" + d.Kind, "alias": "alias" + d.Kind}[d.Path]
+		run = append([]string{}, ss...)
+		for i := range run {
+			if run[i] == d.Kind && (d.Dash < 0 || i < d.Dash) {
+				run[i] = name
+				break
+			}
+		}
+	}
 	cliTemplated(d, ss)
 	w := <-cliWorkers
 	defer func() { cliWorkers <- w }()
 	os.Remove(w.outFile)
-	rc, out := runCLI(w.dir, filepath.Join(w.dir, "home"), withDash(ss, d.Dash))
+	rc, out := runCLI(w.dir, filepath.Join(w.dir, "home"), withDash(run, d.Dash))
+	if d.Path == "alias" {
+		// monitor of the open finding C19-forwarded-value-empty-in-global-alias (one root with C10-cli-specials-defined-after-globals):
+		// the global was rendered before the command-line layer existed — the helper gets nothing (fwd) / two empty arguments (var)
+		rec, ok := readRecorded(w.outFile)
+		want := cliDemanded(d, ss)
+		if rc == 0 && ok && rec != want && (rec == "argv" || rec == "argv - -") {
+			return cl, rec + " alias-empty"
+		}
+	}
 	rec, ok := readRecorded(w.outFile)
 	// monitors of the open findings: the outcome is exactly what the template passes give
 	// → tagged `templated` (DESIGN §8 row 26) resp. `novalue` (<no value> deleted)
@@ -1054,6 +1119,14 @@ func runCliArgs(c *Ctx) {
 	add("var", []string{"A=1", "X=two assignments, no task name"}, -1)
 	add("var", []string{"X=v", "after the dash"}, 1)
 	add("fwd", []string{"fwd", "{{.Y}}", "it's"}, 1)
+	add("fwd", []string{"fwd", "a b", "it's", "$HOME"}, 1).Path = "inc"
+	add("fwd", []string{"fwd", "a b", "it's", "$HOME"}, 1).Path = "via"
+	add("fwd", []string{"fwd", "a b"}, 1).Path = "alias"
+	add("var", []string{"var", "X=it's \"$HOME\" *"}, -1).Path = "inc"
+	add("var", []string{"var", "X=it's \"$HOME\" *"}, -1).Path = "via"
+	add("var", []string{"var", "X=v"}, -1).Path = "alias"
+	add("typed", []string{"N1"}, -1)
+	add("typed", []string{"B1"}, -1)
 	// --init corpus: no argument, directory, file, extension only, existing file, after `--`
 	for _, ic := range []struct {
 		tree []string
@@ -1124,6 +1197,35 @@ func runCliArgs(c *Ctx) {
 		add("var", argv, -1)
 		c.Hit("var")
 	}
+	// path coverage: the same demand when the value travels through an included task, through a `task:` call that hands it
+	// on in `vars:`, through a global variable defined from it (that one arrives EMPTY: open finding)
+	npth := c.Pick(240, 2000)
+	for i := 0; i < npth; i++ {
+		path := []string{"inc", "via", "alias"}[c.Rng.Intn(3)]
+		var d *cliCase
+		if c.Rng.Intn(2) == 0 {
+			argv := []string{"fwd"}
+			for j, k := 0, 1+c.Rng.Intn(4); j < k; j++ {
+				argv = append(argv, c.qBytes(12, noTmpl))
+			}
+			d = add("fwd", argv, 1)
+		} else {
+			argv := []string{"var", "X=" + c.qBytes(16, noTmpl)}
+			if c.Rng.Intn(3) == 0 {
+				argv = []string{argv[1], "var"}
+			}
+			d = add("var", argv, -1)
+		}
+		d.Path = path
+		c.Hit("path:" + d.Kind + ":" + path)
+	}
+	// non-string values through shellQuote / q
+	for i := 0; i < c.Pick(3, 12); i++ {
+		for _, tv := range cliTyped {
+			add("typed", []string{tv[0]}, -1)
+			c.Hit("typed:" + tv[0])
+		}
+	}
 	// template stream (known finding: forwarded text is evaluated as a template)
 	nt := c.Pick(40, 400)
 	for i := 0; i < nt; i++ {
@@ -1179,8 +1281,8 @@ func runCliArgs(c *Ctx) {
 			c.Distinct("i|" + strings.Join(d.Tree, ",") + "|" + strings.Join(d.Argv, ",") + "|" + strconv.Itoa(d.Dash))
 		default:
 			c.Hit(d.Kind + ":" + strings.SplitN(out[i].il, " ", 2)[0])
-			if len(d.Argv) > 1 {
-				c.Distinct(d.Kind + "|" + strings.Join(d.Argv, ","))
+			if len(d.Argv) > 1 || d.Kind == "typed" {
+				c.Distinct(d.Kind + "|" + d.Path + "|" + strings.Join(d.Argv, ","))
 			}
 		}
 	}
